@@ -367,6 +367,28 @@ structure Usage where
   machineKnown : Bool := true
 deriving Repr
 
+/-- a positional argument after the configuration file -/
+inductive Arg where
+  | filter (f : FilterExpr)   -- starts with `e:`, `s:` or `t:`
+  | name (known : Bool)       -- anything else: taken for an experiment name, which exists or not
+deriving Repr, DecidableEq
+
+/-- `determine_exp_name_and_filters` (rebench.py:224-233): the first argument is
+the experiment name unless it has a filter prefix (no name: the default
+experiment); every argument with a filter prefix is a filter expression;
+further arguments without one are not looked at -/
+def expKnownOf : List Arg → Bool
+  | .name k :: _ => k
+  | _ => true
+
+def filtersOf : List Arg → List FilterExpr
+  | [] => []
+  | .filter f :: as => f :: filtersOf as
+  | .name _ :: as => filtersOf as
+
+def usageOfArgs (args : List Arg) (schedKnown machineKnown : Bool) : Usage :=
+  { schedKnown := schedKnown, filters := filtersOf args, expKnown := expKnownOf args, machineKnown := machineKnown }
+
 /-- what a usage error ends in (repaired tree: always the user-facing error, exit 3).
 Order as in `ReBench.run`: configuration (experiment, machine, filters) first,
 the scheduler when the experiment is executed. -/
